@@ -187,3 +187,21 @@ from contracts import c30_binding as _C30
 _Q = 'cassandra.query.'
 harness('C38', 'key-parts-packed-as-cassandra-composite', functions=[_Q + 'Statement._set_routing_key', _Q + 'Statement._key_parts_packed', _Q + 'BoundStatement.routing_key'],
         native='contracts.native.c30:replay')(_C30.routing_key)
+
+
+# "Cassandra's encoding of that partition key for the model's key column types": the key serializer hands each key value to the core serializer of the column's
+# CQL type, and the replica that owns the row is found from the hash of Cassandra's own (canonical) bytes - cqlengine sends the values as literals, the server
+# encodes them itself.  A serializer that produces bytes that still decode to the same value but are not Cassandra's (a non-minimal varint, say) therefore
+# mis-routes without any round trip noticing.  Byte-exactness of the serializers is C02's contract; it is re-discharged here for the types a key column can have
+# whose encoding is not a fixed transcription of the value (integers of every width, varint - which decimal builds on -, boolean, date, time, timestamp).
+from contracts import codec_common as _K
+from contracts import varint_common as _V
+for _c, _w, _s in _K.FIXED_INTS:
+    _K.mk_fixed_int('C38', _c, _w, _s)
+_K.mk_boolean('C38')
+_K.mk_simpledate('C38')
+_K.mk_time('C38')
+_K.mk_timestamp('C38')
+_V.mk_varint_pack('C38')
+TRUSTED = list(TRUSTED) + list(_V.LEMMAS) + ['E-DATETIME, E-STRUCT as in C02 (contracts/c02_byteexact.py)', 'spec functions in spec/cser.py are the oracle for the key column encodings']
+LEAN_LEMMAS = _V.LEAN_LEMMAS
